@@ -39,8 +39,8 @@ Lemma eval_entry_fst :
     fst (eval_entry w d e st) = vset (e_name e) (entry_value w d e st) (fst st).
 Proof.
   intros w d e [r c]. unfold eval_entry, entry_value. cbn [fst snd].
-  destruct (e_expr e); cbn; auto.
-  destruct (handle_dynamic w text (e_dir e) d (env_from_vars w r) c); reflexivity.
+  destruct (e_expr e) as [s|ps|ps|m]; cbn; auto.
+  destruct (handle_dynamic w (render ps r) (e_dir e) d (env_from_vars w r) c); reflexivity.
 Qed.
 
 Lemma eval_entry_defines :
